@@ -219,4 +219,18 @@ PROPS['C11'] = {
     'level_note': _EXCEL_NOTE,
 }
 
+PROPS['C15'] = {
+    'contracts': ['contracts.excel:Run', 'contracts.excel:ReadTable', 'contracts.excel:ProcessSamples'],
+    'bounded': True,
+    'level': 'other',
+    'explanation': 'Proved: run() reads Instruments/Beads/Samples by ID from the input workbook, processes beads then samples (with the beads '
+                   'table and the bead transforms), adds statistics after processing, generates the histogram sheet iff requested, and '
+                   'writes exactly the sheets Instruments, Beads, Samples, (Histograms), About Analysis in this order to the given path or '
+                   '<input stem>_output.xlsx next to the input; read_table drops the rows without identifier and THEN refuses duplicated '
+                   'identifiers, refuses list/None sheet names; process_samples_table never lets an exception escape (C11). NOT within '
+                   'contract reach (bounded stand-in only): termination/exception freedom of the real processing stack, preservation of '
+                   'rows/columns by the pandas operations, figure files, xlsx write/read fidelity.',
+    'level_note': 'Processing steps, pandas and os.path summarised; liveness of the whole run is bounded only.',
+}
+
 NOT_APPLICABLE = {}
